@@ -20,3 +20,5 @@ def run(ctx):
     run_kernels(ctx, ["K7", "K8", "K14", "K16", "K3", "K5"], "C09")
     from ..rules_misc import fragment_cache_rule
     ctx.guard(fragment_cache_rule, ctx, "C09.no-fragment-cache")
+    from ..rules_flow import ctor_rule
+    ctx.guard(ctor_rule, ctx, "C09.product-copy")
